@@ -247,10 +247,12 @@ def run(ctx):
 
     # ---------------------------------------------------------------- F. time-aware covariance
     for name in W.BASES:
-        for _ in range(2):
+        for rep_ in range(3):
             width = rng.choice([2, 3, 5])
             X, Y = W.point_sets(rng, width)
             ls, lt = float(np.float64(10.0 ** rng.uniform(-1, 1.5))), float(np.float64(10.0 ** rng.uniform(-1, 1.5)))
+            if rep_ == 2:
+                lt = ls          # equal state and time length scales (seeded change C05-1 merged the two kernels in that case)
             cls = getattr(mc, name)
             cov = mp.compute_cov_func(cls, ls, ls_time=lt)
             K = np.asarray(cov(jnp.asarray(X), jnp.asarray(Y)))
@@ -261,7 +263,7 @@ def run(ctx):
             for (i, j) in entry_picks(rng, X.shape[0], Y.shape[0]):
                 v1, t1, _, _, _ = st.oracle(X[i, :-1], Y[j, :-1])
                 v2, t2, _, _, _ = tm.oracle(X[i, -1:], Y[j, -1:])
-                v, tol = v1 * v2, abs(v1) * t2 + abs(v2) * t1 + t1 * t2 + W.U * abs(v1 * v2)
+                v, tol = v1 * v2, abs(v1) * t2 + abs(v2) * t1 + t1 * t2 + W.U * abs(v1 * v2) + W.TINY   # the float product may underflow
                 compare("C05|time-product|%s" % name, "time-aware covariance is not state kernel x time kernel", K[i, j], v, tol,
                         {"call": "compute_cov_func(%s, %r, ls_time=%r)(x[None], y[None])" % (name, ls, lt), "x": X[i].tolist(), "y": Y[j].tolist()})
                 if model:
